@@ -785,6 +785,23 @@ func (in *Interp) callBuiltin(fr *frame, fn *ssa.Builtin, args []Value) Value {
 			return dst
 		}
 		n := len(dst) + len(src)
+		if in.sc != nil && in.sc.race != nil {
+			if _, srcIsSlice := args[1].(Slice); srcIsSlice {
+				for i := range src {
+					in.raceAccess(nil, &src[i], false)
+				}
+			}
+			if n <= cap(dst) {
+				spare := dst[:n]
+				for i := len(dst); i < n; i++ {
+					in.raceAccess(nil, &spare[i], true)
+				}
+			} else {
+				for i := range dst {
+					in.raceAccess(nil, &dst[i], false)
+				}
+			}
+		}
 		if n <= cap(dst) {
 			res := dst[:n]
 			// src may alias dst's spare capacity (append(b[:k], b[j:]...)):
@@ -847,6 +864,15 @@ func (in *Interp) callBuiltin(fr *frame, fn *ssa.Builtin, args []Value) Value {
 			n = len(src)
 		}
 		if n > 0 {
+			if in.sc != nil && in.sc.race != nil {
+				_, srcIsSlice := args[1].(Slice)
+				for i := 0; i < n; i++ {
+					if srcIsSlice {
+						in.raceAccess(nil, &src[i], false)
+					}
+					in.raceAccess(nil, &dst[i], true)
+				}
+			}
 			tmp := make([]Value, n)
 			for i := 0; i < n; i++ {
 				tmp[i] = copyVal(src[i])
